@@ -83,8 +83,12 @@ def main(tier, replay=None):
             il = impl.get(key)
             if il is None:
                 continue
-            f.write(cl + " @ " + " ".join(il.split(" ")[2:]) + "\n")
             n_mon += 1
+            if "panic" in il.split(" ")[2:] and "panic" not in (model.get(key) or "").split(" ")[2:]:
+                # the implementation aborted where the model does not: judged without the driver
+                # (no spec line => reported below as a monitor violation with this input)
+                continue
+            f.write(cl + " @ " + " ".join(il.split(" ")[2:]) + "\n")
     spec_out = c.run_sharded([driver, "<"], spec_in, os.path.join(rd, "spec.out"), argv_suffix=["spec"])
     spec = read_keyed(spec_out)
     mon_viol = {}
